@@ -517,6 +517,27 @@ def check_sequence_laws(col, p, kinds, steps, rng, full):
             bad = type(T)(); bad.__ops__ = pre_ops + ('.', 'zz_not_there')
             if p.startswith(bad) is not False:
                 col.violation('C18/path-startswith-nonprefix-true', '%s.startswith(non-prefix) is not False' % rp, wit)
+            # the same VALUES reached by another kind of access are other steps: (k+1)-step prefix with the kind of its last step changed
+            op, arg = steps[k]
+            if op in ('.', '[', 'P') and isinstance(arg, str):
+                for other_op in {'.', '[', 'P'} - {op}:
+                    if other_op == '.' and not arg.isidentifier():
+                        continue
+                    alt = type(T)(); alt.__ops__ = pre_ops + (other_op, arg)
+                    col.count('startswith_checks')
+                    for form in (alt, Path(alt)):
+                        got_sw = call(p.startswith, form)
+                        if not got_sw.ok or got_sw.value is not False:
+                            col.violation('C18/path-startswith-nonprefix-true:same-values-other-kind-of-step',
+                                          '%s.startswith(%s) gave %r: step %d is %r there and %r here' % (rp, short(form), got_sw, k, (other_op, arg), (op, arg)), wit)
+            # ... and the same steps from another root are not a prefix either
+            for other_root in (T, S, A):
+                if other_root is not ops_of(p)[0]:
+                    alt = type(T)(); alt.__ops__ = (other_root,) + pre_ops[1:] + tuple(steps[k])
+                    got_sw = call(p.startswith, alt)
+                    col.count('startswith_checks')
+                    if not got_sw.ok or got_sw.value is not False:
+                        col.violation('C18/path-startswith-nonprefix-true:other-root', '%s.startswith(%s) gave %r' % (rp, short(alt), got_sw), wit)
     same = type(T)(); same.__ops__ = (ops_of(p)[0],) + tuple(itertools.chain.from_iterable(steps))
     if not (p == Path(same)) or (p != Path(same)):
         col.violation('C18/path-eq-equal-steps-false', '%s != Path rebuilt from the same steps' % rp, wit)
